@@ -156,6 +156,18 @@ def p_symx(ctx):
     return "model_checking", RULE_LOOKUP
 
 
+@plan("C15")
+def p_typename(ctx):
+    from . import p_typename as m
+    return m.run(ctx)
+
+
+@plan("C07", "C08")
+def p_auxwire(ctx):
+    from . import p_aux as m
+    return m.run(ctx)
+
+
 def replay_file(gtirb, prop, path):
     v = json.load(open(path))
     consts = configs.get(v["config"])
